@@ -130,7 +130,7 @@ func specsBase() []*Spec {
 				{Pkg: "extra/x25519", Job: "C15sched", Instr: "sched", Quick: []string{"default", "noasm"}, Thorough: []string{"default", "noasm", "force32bit", "appengine"}},
 				{Pkg: "extra/x25519", Job: "C15race", Race: true, Quick: []string{"default", "noasm"}, Thorough: []string{"default", "noasm", "force32bit", "appengine"}},
 			},
-			Rule:   "E2 histories: every sequence of <= 2 (thorough 3) calls over a 29-operation alphabet (Sign pure/ctx/ph, Verify good/bad, ZIP-215 small-order, VerifyBatch of 4 good / 4 with one bad / 5 / 65 / 3, GenerateKey, NewKeyFromSeed, X25519 base / generic / low-order, both key conversions, Equal), each history in a FRESH process: every call's result == its result alone in a fresh process; content hash of every package-level variable of the five packages (registered by generated code) unchanged after every call. E3 schedules: 190 two-thread scenarios (every unordered pair of operations), 12 (thorough 24) three-thread scenarios, 12 scenarios of 2 threads x 2 calls, on a build whose every statement touching a package-level variable is preceded by a scheduler hook: discovery run with per-access content hashing finds written variables; a variable written by one call and accessed by a concurrent call is a data race (the library has no synchronisation); preemption-bounded DFS (bound 2, thorough 3) over call boundaries and accesses to written variables, each schedule in a fresh process, oracle = solo results and unchanged global state; with no written variable all access events commute and the executed call orders represent every interleaving. Auxiliary: the same scenarios free-running under the Go race detector. distinct = history / scenario.",
+			Rule:   "E2 histories: every sequence of <= 2 (thorough 3) calls over a 29-operation alphabet (plus auxiliary operations: 8 keys, 12 refused verifications, 9 buffer-reuse and 2 options-reuse families) (Sign pure/ctx/ph, Verify good/bad, ZIP-215 small-order, VerifyBatch of 4 good / 4 with one bad / 5 / 65 / 3, GenerateKey, NewKeyFromSeed, X25519 base / generic / low-order, both key conversions, Equal), each history in a FRESH process: every call's result == its result alone in a fresh process; content hash of every package-level variable of the five packages (registered by generated code) unchanged after every call. E3 schedules: 190 two-thread scenarios (every unordered pair of operations), 12 (thorough 24) three-thread scenarios, 12 scenarios of 2 threads x 2 calls, on a build whose every statement touching a package-level variable is preceded by a scheduler hook: discovery run with per-access content hashing finds written variables; a variable written by one call and accessed by a concurrent call is a data race (the library has no synchronisation); preemption-bounded DFS (bound 2, thorough 3) over call boundaries and accesses to written variables, each schedule in a fresh process, oracle = solo results and unchanged global state; with no written variable all access events commute and the executed call orders represent every interleaving. Auxiliary: the same scenarios free-running under the Go race detector. distinct = history / scenario.",
 			Assume: []string{"interleavings are explored at accesses to package-level variables (found by type-checking the current sources) and call boundaries; shared memory reached only through pointers smuggled into globals is seen by the content-hash invariant and the free-running race pass", "sequential consistency; the Go memory model's weaker orderings are not modelled"},
 		},
 		{
@@ -157,14 +157,14 @@ var ruleAddenda = map[string]string{
 	"C01": "variant dimension of 6 (incl. 255-byte contexts and ph under the ctx variant's context); dimension Rrel (signature carries (-x,y) / (x,-y) of the point the equation yields); honest inputs signed by the model.",
 	"C03": "S = (r + h a) mod L evaluated as sign() does on all triples of a scalar boundary alphabet, per configuration; later-chunk positions.",
 	"C05": "the heterogeneous batch shapes also in default mode (neighbours stay accepted, the entry gets the default verdict).",
-	"C06": "level 1e: entropy sources answering with 1/16/17/100/1000 bytes per call x bad positions in every chunk; homogeneous chunks; runs of one bad entry; cross-variant and model-signed wrong-length-digest entries.",
+	"C06": "arguments handed over as consecutive slices of one buffer (two calls out of three) with a changed-byte check, result vector overwritten after each call; level 1e: entropy sources answering with 1/16/17/100/1000 bytes per call x bad positions in every chunk; homogeneous chunks; runs of one bad entry; cross-variant and model-signed wrong-length-digest entries.",
 	"C07": "digest-length sweep in batches of 70 and 140 at the first/last positions of every batched chunk; hash selectors 0..24, 64, 200, 2^31; homogeneous batches.",
 	"C09": "runs of one small-order entry across a chunk boundary; small-order entry before/after a malformed entry (key31, sig63, msg63) in the first and a later chunk.",
 	"C10": "constructed y whose square-root check value has one non-zero byte at each position, or the same byte at positions i and i+4k; points with tiny x.",
 	"C11": "constructed (scalar, point) pairs for chosen results: one non-zero byte per position, two equal bytes at (i,j), u = k and p-k (k < 64), u around every limb boundary of both layouts; the one-bit / byte-0 / byte-31 value neighbourhood of the base point; re-slices of Basepoint; carry-run scalars (runs of 7/8/15/0 of limb-like length with the digit below sending or not sending a carry); input arrays intact; results fresh.",
 	"C13": "canaries with spare capacity, content-intact comparison per content class, aliasing, malformed kinds key64/key0/msg-huge, hash selectors 0..40, 63..65, 200, 2^16, 2^31, 2^32-1 through Sign and VerifyBatch.",
-	"C14": "every pair of byte positions x {same mask at both, +1/-1} for Equal on public and private keys.",
-	"C15": "buffer-reuse histories (9 families x 3 content variants written into the same caller buffers, sequences of 2, thorough 3); fill-perturb-recheck histories (1..8 keys, 10 perturbing calls); depth-4 (thorough 6) histories over 6 operations; goroutines started by the library are recognised and never scheduled.",
+	"C14": "spare-capacity independence of every returned slice; transient-error readers; every pair of byte positions x {same mask at both, +1/-1} for Equal on public and private keys.",
+	"C15": "results overwritten to their capacity after every call; refused-then-sentinel histories (12 refusals x 8 sentinels); shared-Options operations; buffer-reuse histories (11 families x 3 content variants written into the same caller buffers, sequences of 2, thorough 3); fill-perturb-recheck histories (1..8 keys, 10 perturbing calls); depth-4 (thorough 6) histories over 6 operations; goroutines started by the library are recognised and never scheduled.",
 	"C16": "dirty-output pass (result must not depend on the output variable's prior content); carry-run scalars on the fixed-base path; all 7 configurations in the quick tier.",
 	"C17": "every multi-scalar case also into an output point holding [4+n]B; reuse sequences share heap and output point and put r=0 / r=1 chunks after a general chunk; end to end: fallback offsets of mixed batches == the chunks holding a bad entry.",
 	"C18": "dirty-output pass; reducing and after-basic forms on one-level unreduced operands on either side.",
